@@ -349,16 +349,25 @@ void tensors() {
         cmp("StrainRate(VelocityGradient) = (L + L^T) / 2", got, want, sc, 6);
       }
     }
+    // near-hydrostatic stresses: large mean normal stress, small deviator (every third tensor)
+    if (it % 3 == 1) {
+      const T p = (T)std::ldexp((T)1.5625, 6 + 7 * (it % 4));
+      c[0] = p + c[0] * (T)0.03125;
+      c[3] = p + c[3] * (T)0.03125;
+      c[5] = p + c[5] * (T)0.03125;
+      c[1] *= (T)0.015625;
+      c[2] *= (T)0.015625;
+      c[4] *= (T)0.015625;
+    }
     // von Mises stress
     {
       const Stress<T> sg(SymmetricDyad<T>(c[0], c[1], c[2], c[3], c[4], c[5]), Unit::Pressure::Pascal);
       const f128 xx = c[0], xy = c[1], xz = c[2], yy = c[3], yz = c[4], zz = c[5];
       const f128 q = ((xx - yy) * (xx - yy) + (yy - zz) * (yy - zz) + (zz - xx) * (zz - xx)) / 2 + 3 * (xy * xy + yz * yz + xz * xz);
       f128 want[1] = {sqrtq(q)};
-      // conditioning: the squared differences cancel when the normal stresses are close; scale by the magnitude of the entries
-      f128 m = 0;
-      for (int i = 0; i < 6; i++) m = fmaxq(m, fabsq((f128)c[i]));
-      f128 sc[1] = {fmaxq(want[0], m)};
+      // the textbook form takes differences of the normal stresses first (exact or correctly rounded), so it is accurate
+      // to a few ulps of the RESULT even when the mean stress dwarfs the deviator
+      f128 sc[1] = {want[0]};
       if constexpr (HasVonMises<Stress<T>>::value) {
         T got[1] = {sg.VonMises().Value()};
         cmp("Stress.VonMises() = sqrt(((sxx-syy)^2+(syy-szz)^2+(szz-sxx)^2)/2 + 3(sxy^2+syz^2+sxz^2))", got, want, sc, 1);
